@@ -351,6 +351,22 @@ fn c02_c03_c15(run: &Run, prop: &str) -> i32 {
             Err(e) => run.machinery_error(format!("long line script: {e}")),
         }
     }
+    // one deeply nested line without sibling moves (the take-back stack far deeper than any search or game goes),
+    // null moves in between, then everything taken back in reverse order, each level compared with its snapshot
+    {
+        let plies = if run.quick() { 2600 } else { 20000 };
+        let (seed, script) = ops::deep_nest_script(7, 8, plies, 37);
+        total.lock().unwrap().clear();
+        match ops::run_script(&ctx, om, &seed, &script, &total) {
+            Ok(n) => {
+                run.merge_counts(&total.lock().unwrap());
+                run.family("E2-DEEP-NEST", &format!("one line nested {plies} operations deep on one game object (two rooks cycling, a null move in place of every 37th move), checked after every operation, then taken back level by level in reverse order, every level compared with the snapshot taken on the way down: {} operations", script.len()), n, script.len() as u64, true, "");
+                s += n;
+                t += script.len() as u64;
+            }
+            Err(e) => run.machinery_error(format!("deep nest script: {e}")),
+        }
+    }
     if prop == "C03" {
         let (a, b) = match crate::util::catch(|| keycomp::check(run)) {
             Ok(x) => x,
